@@ -61,6 +61,37 @@ func oneOutcome(c *fw.Ctx, src, stdin, sig string) {
 		c.R.States += int64(n)
 		c.R.Transitions += int64(n)
 	}
+	// memory layout: the default schedule again with complete garbage collections forced at evenly
+	// spaced points of the execution (about 40, and about 8), so that the memory of dead values is
+	// handed out again as early as it can be
+	if first != nil && !probe.Diverged && probe.Panic == "" {
+		for _, parts := range []int64{40, 8} {
+			every := probe.FuelSpent / parts
+			if every < 1 {
+				every = 1
+			}
+			o := h.RunFile(src, h.Opts{Stdin: stdin, StdinMode: 1, GCEvery: every, Fuel: 3_000_000})
+			c.Eval(fmt.Sprint("gc", every)+src, true)
+			c.Add("executions_with_forced_collections", 1)
+			c.Add("forced_collections", o.GCRuns)
+			c.R.States++
+			c.R.Transitions++
+			base := fw.Replay{Mode: "file", Program: src, Stdin: stdin, CLI: false, InStdout: o.Stdout, InStderr: o.Stderr, InStatus: o.Status}
+			if abnormal(c, o, "file", src, base) {
+				continue
+			}
+			key := fmt.Sprintf("%d\x00%s\x00%s", o.Status, o.Stdout, o.FirstDiag())
+			c.Outcome(key)
+			if key != first.key {
+				r := base
+				r.Sig = "C13|outcome-differs-with-memory-layout|" + sig
+				r.What = "the same program on the same input differs when garbage collections happen at other points (memory of dead values reused earlier)"
+				r.Expected = fmt.Sprintf("no forced collection: %q", trunc(first.key, 300))
+				r.Observed = fmt.Sprintf("a complete collection every %d fuel points (%d collections): %q", every, o.GCRuns, trunc(key, 300))
+				c.Violate(r)
+			}
+		}
+	}
 }
 
 func permutations(n int) [][]int {
@@ -206,6 +237,55 @@ func C13(c *fw.Ctx) {
 		}
 	}
 	c.Bound("examples", len(files))
+	// H: object churn: a loop that builds, lists / prints and drops objects of alternating shapes (same
+	// property counts, different names), every choice of two shapes from a pool, three observation forms
+	{
+		shapes := [][]string{{"a", "b"}, {"c", "d"}, {"a", "d"}, {"b", "c", "e"}, {"x", "y", "z"}, {"a"}, {"q"}}
+		obsForms := []string{"keys", "values", "print", "keys-values"}
+		for i, s1 := range shapes {
+			for j, s2 := range shapes {
+				if i == j || len(s1) != len(s2) {
+					continue
+				}
+				for _, of := range obsForms {
+					for _, hold := range []bool{false, true} {
+						if !c.Mine() {
+							continue
+						}
+						lit := func(ks []string, base int) string {
+							var parts []string
+							for k, n := range ks {
+								parts = append(parts, fmt.Sprintf("%s: i * 10 + %d", n, base+k))
+							}
+							return "{" + strings.Join(parts, ", ") + "}"
+						}
+						obs := map[string]string{
+							"keys":        model.KwPrint + " " + model.BiKeys + "(o);",
+							"values":      model.KwPrint + " " + model.BiValues + "(o);",
+							"print":       model.KwPrint + " o;",
+							"keys-values": model.KwPrint + " " + model.BiKeys + "(o); " + model.KwPrint + " " + model.BiValues + "(o); " + model.KwPrint + " o;",
+						}[of]
+						var sb strings.Builder
+						if hold {
+							sb.WriteString(model.KwVar + " kept = [];\n")
+						}
+						sb.WriteString(model.KwFor + " (" + model.KwVar + " i = 0; i < 8; i = i + 1) {\n")
+						sb.WriteString("  " + model.KwVar + " o = " + lit(s1, 1) + ";\n")
+						sb.WriteString("  " + model.KwIf + " (i % 2 == 1) { o = " + lit(s2, 5) + "; }\n")
+						sb.WriteString("  " + obs + "\n")
+						if hold {
+							sb.WriteString("  " + model.KwIf + " (i == 2) { kept = " + model.BiAppend + "(kept, o); }\n")
+						}
+						sb.WriteString("}\n")
+						if hold {
+							sb.WriteString(model.KwPrint + " kept;\n")
+						}
+						oneOutcome(c, sb.String(), "", "object-churn|"+of)
+					}
+				}
+			}
+		}
+	}
 	// G: programs that read their input through either name of the input built-in, in every sequence
 	// of up to three reads, on every input of a small pool: one outcome whatever sizes the reads of
 	// stdin are answered with (three default answers, up to two deviating reads each)
